@@ -12,21 +12,22 @@ import (
 
 func scenarios(tier string) []fx.Scenario {
 	m, leaves := 4, 2
+	kinds := fx.BadKinds
 	if tier == "thorough" {
+		// larger trees; the invalid block is made invalid in the two ways that fail earliest and
+		// latest (bad block signature, wrong state root) to keep the run inside its budget
 		m, leaves = 5, 3
+		kinds = []string{"root", "sign"}
 	}
 	var out []fx.Scenario
 	for _, p := range fx.Trees(m, leaves) {
 		for _, fl := range []string{"empty", "tx"} {
 			out = append(out, fx.Scenario{Parents: p, Flavour: fl})
-			if fl == "empty" && tier != "thorough" {
+			if fl == "empty" {
 				continue
 			}
 			for bad := 1; bad <= len(p); bad++ {
-				for _, k := range fx.BadKinds {
-					if fl == "empty" && k == "badtx" {
-						continue
-					}
+				for _, k := range kinds {
 					out = append(out, fx.Scenario{Parents: p, Flavour: fl, BadIdx: bad, BadKind: k})
 				}
 			}
